@@ -99,6 +99,43 @@ func specTyped(e Expression) bool {
 	return false
 }
 
+// specNoCall: evaluating e calls nothing and reads no input, so evaluating it several times
+// cannot be told from evaluating it once.
+func specNoCall(e Expression) bool {
+	if e == nil {
+		return true
+	}
+	switch n := e.(type) {
+	case BooleanLiteral:
+		return true
+	case IntegerLiteral:
+		return true
+	case StringLiteral:
+		return true
+	case VariableEvaluation:
+		return true
+	case Group:
+		return specNoCall(n.child)
+	case UnaryOperation:
+		return specNoCall(n.expr)
+	case BinaryOperation:
+		return specNoCall(n.left) && specNoCall(n.right)
+	case Comparison:
+		return specNoCall(n.left) && specNoCall(n.right)
+	case LogicalOperation:
+		return specNoCall(n.left) && specNoCall(n.right)
+	case SliceEvaluation:
+		return specNoCall(n.value) && specNoCall(n.index)
+	case StringSubscript:
+		return specNoCall(n.value) && specNoCall(n.startIndex) && specNoCall(n.endIndex)
+	case Len:
+		return specNoCall(n.expression)
+	case Itoa:
+		return specNoCall(n.value)
+	}
+	return false
+}
+
 // specReservedName: identifiers the back ends own (temporaries _h<n>, registers _rv<n> _fa<n>,
 // loop flags _fv<n>, dynamic arrays _dv<n> _dvc, helper routines and their scratch variables).
 func specReservedName(name string) bool {
@@ -227,6 +264,8 @@ func specInScope(stack []scope, n int, s scope) bool {
 //
 //@ func (*Parser).evaluateAppCall
 //@   ensures[C06] typed: err == nil ==> specTyped(asExprFromCall(result0))
+//@   ensures[C13,C18] an-external-call-or-an-error: err == nil ==> isType(result0, "parser.AppCall")
+//@   ensures[C18] a-pipe-sign-links-exactly-the-rest-of-the-chain: err == nil ==> isType(result0, "parser.AppCall") && calls(evaluateArguments) == 1 && asType(result0, "parser.AppCall").args == res(evaluateArguments, 0, 0) && calls(evaluateAppCall) <= 1 && ((calls(evaluateAppCall) == 1) == (asType(result0, "parser.AppCall").next != nil))
 //
 //@ func (*Parser).evaluateSubscript
 //@   ensures[C06] typed: err == nil ==> specTyped(result0)
@@ -271,6 +310,14 @@ func specInScope(stack []scope, n int, s scope) bool {
 //@   ensures[C06] never-nil-on-success: err == nil ==> result0 != nil
 //@   ensures[C07] no-parameter-name-twice: err == nil ==> forall(a, 0, len(result0), forall(b, 0, a, result0[b].name != result0[a].name))
 //
+// The callback that evaluateFunctionDefinition hands to evaluateBlock looks at the body once it is
+// complete (last): a function that declares results must end in a return statement that returns
+// as many values as declared, each of the declared type (element type and slice-ness).
+//@ func (*Parser).evaluateFunctionDefinition$2
+//@   loop @"range returnStatement.Values()" invariant[C06,C07] returned-values-so-far-have-the-declared-types: errTemp == nil && forall(k, 0, rangeindex + 1, returnStatement.values[k].ValueType().dataType == returnTypes[k].dataType && returnStatement.values[k].ValueType().isSlice == returnTypes[k].isSlice)
+//@   ensures[C06,C07] a-function-with-results-ends-in-a-return-of-exactly-the-declared-types: result == nil && last && len(returnTypes) > 0 ==> len(statements) > 0 && isType(statements[len(statements)-1], "parser.Return") && len(asType(statements[len(statements)-1], "parser.Return").values) == len(returnTypes) && forall(k, 0, len(returnTypes), asType(statements[len(statements)-1], "parser.Return").values[k].ValueType().dataType == returnTypes[k].dataType && asType(statements[len(statements)-1], "parser.Return").values[k].ValueType().isSlice == returnTypes[k].isSlice)
+//@   ensures[C07] a-function-without-results-does-not-end-in-a-return: result == nil && len(returnTypes) == 0 && len(statements) > 0 ==> !isType(statements[len(statements)-1], "parser.Return")
+//
 //@ func (*Parser).evaluateFunctionDefinition
 //@   callsite addVariables requires[C07,C09] parameters-are-never-globals: !arg2
 //@   ensures[C07] second-function-of-the-same-name-rejected: old(specHasFunction(ctx, p.peekAt(1).value, p.prefix)) ==> err != nil
@@ -280,6 +327,7 @@ func specInScope(stack []scope, n int, s scope) bool {
 //@ func (*Parser).evaluateSwitch
 //@   loop @"CLOSING_CURLY_BRACKET" invariant[C01,C12] the-token-decided-on-is-the-current-token: nextToken == p.peek()
 //@   loop @"CLOSING_CURLY_BRACKET" invariant[C01,C04] one-branch-per-case: (useMock ==> calls(evaluateExpression) == ite(old(p.peekAt(1)).tokenType == lexer.OPENING_CURLY_BRACKET, 0, 1) && len(fakeIf.elifBranches) == 0) && (!useMock ==> 1 + len(fakeIf.elifBranches) == calls(evaluateExpression) - ite(old(p.peekAt(1)).tokenType == lexer.OPENING_CURLY_BRACKET, 0, 1))
+//@   ensures[C01,C04,FINDING] the-tag-is-evaluated-once-however-many-cases-compare-with-it: err == nil && old(p.peekAt(1)).tokenType != lexer.OPENING_CURLY_BRACKET && calls(evaluateExpression) >= 3 ==> specNoCall(res(evaluateExpression, 0, 0))
 //@   ensures[C01,C04] one-branch-per-case-in-order: err == nil && calls(evaluateExpression) > ite(old(p.peekAt(1)).tokenType == lexer.OPENING_CURLY_BRACKET, 0, 1) ==> isType(result0, "parser.If") && 1 + len(asType(result0, "parser.If").elifBranches) == calls(evaluateExpression) - ite(old(p.peekAt(1)).tokenType == lexer.OPENING_CURLY_BRACKET, 0, 1)
 //
 //@ func (*Parser).evaluateImports
@@ -319,6 +367,8 @@ func specInScope(stack []scope, n int, s scope) bool {
 //@ func (*Parser).parse
 //@   flag nocommon: true
 //@   ensures[C09,C14] prefix-hashes-exactly-the-file-content: imported && err == nil ==> calls(crypto_sha256_New) == 1 && seq(crypto_sha256_New, 0) < seq(Write, 0) && calls(Write) == 1 && calls(os_ReadFile) == 1 && arg(Write, 0, 0) == res(os_ReadFile, 0, 0) && calls(Sum) == 1 && seq(Write, 0) < seq(Sum, 0)
+//@   callsite evaluateProgram requires[C13,C14] the-parser-remembers-exactly-the-path-it-was-given: calls(path_filepath_IsAbs) == 1 && (res(path_filepath_IsAbs, 0, 0) ==> p.path == arg(path_filepath_IsAbs, 0, 0)) && (!res(path_filepath_IsAbs, 0, 0) ==> calls(path_filepath_Abs) == 1 && arg(path_filepath_Abs, 0, 0) == arg(path_filepath_IsAbs, 0, 0) && p.path == res(path_filepath_Abs, 0, 0)) && calls(os_ReadFile) == 1 && arg(os_ReadFile, 0, 0) == p.path
+//@   ensures[C13,C14] the-path-examined-is-the-path-given: calls(path_filepath_IsAbs) >= 1 && arg(path_filepath_IsAbs, 0, 0) == path
 //@ func (*Parser).Parse
 //@   flag nocommon: true
 //
@@ -416,6 +466,10 @@ func specInScope(stack []scope, n int, s scope) bool {
 //@ func (*Parser).evaluateFor
 //@   ensures[C07,C10] both-range-variables-are-checked-against-the-visible-names: err == nil && old(p.peekAt(1)).tokenType == lexer.IDENTIFIER && old(p.peekAt(2)).tokenType == lexer.COMMA ==> calls(checkNewVariableNameToken) >= 2 && arg(checkNewVariableNameToken, 0, 1) == old(p.peekAt(1)) && arg(checkNewVariableNameToken, 1, 1) == old(p.peekAt(3))
 //@   callsite addVariables requires[C07,C09] loop-variables-are-never-globals: !arg2
+//@   callsite evaluateBlock requires[C01,C03] a-range-loop-counts-from-zero-while-the-index-is-below-the-current-length: len(init.variables) == 1 && init.variables[0] == indexVar && len(init.values) == 1 && init.values[0] == specIntLit(0) && condition.left == specVarEval(indexVar) && condition.operator == COMPARE_OPERATOR_LESS && condition.right == specLen(iterableExpression) && increment == incrementDecrementStatement(indexVar, true) && indexVar.name == indexVarName && indexVar.valueType.dataType == DATA_TYPE_INTEGER && !indexVar.valueType.isSlice
+//@   callsite evaluateBlock requires[C01,C03] each-round-of-a-range-loop-first-reads-the-element-at-the-index: (hasNamedVar ==> len(forRangeStatements) == 1 && isType(forRangeStatements[0], "parser.VariableAssignment") && len(asType(forRangeStatements[0], "parser.VariableAssignment").variables) == 1 && asType(forRangeStatements[0], "parser.VariableAssignment").variables[0].name == valueVarName && len(asType(forRangeStatements[0], "parser.VariableAssignment").values) == 1 && asType(forRangeStatements[0], "parser.VariableAssignment").values[0] == iterableEvaluation) && (!hasNamedVar ==> len(forRangeStatements) == 0)
+//@   callsite evaluateBlock requires[C03] the-element-of-a-range-loop-is-the-iterable-at-the-index: (isType(iterableEvaluation, "parser.SliceEvaluation") ==> asType(iterableEvaluation, "parser.SliceEvaluation").value == iterableExpression && asType(iterableEvaluation, "parser.SliceEvaluation").index == specVarEval(indexVar)) && (isType(iterableEvaluation, "parser.StringSubscript") ==> asType(iterableEvaluation, "parser.StringSubscript").value == iterableExpression && asType(iterableEvaluation, "parser.StringSubscript").startIndex == specVarEval(indexVar) && asType(iterableEvaluation, "parser.StringSubscript").endIndex == nil) && (isType(iterableEvaluation, "parser.SliceEvaluation") || isType(iterableEvaluation, "parser.StringSubscript"))
+//@   ensures[C01,C03] a-range-loop-is-the-counting-loop-over-the-current-length: err == nil && old(p.peekAt(1)).tokenType == lexer.IDENTIFIER && (old(p.peekAt(2)).tokenType == lexer.COMMA || (old(p.peekAt(2)).tokenType == lexer.SHORT_INIT_OPERATOR && old(p.peekAt(3)).tokenType == lexer.RANGE)) ==> isType(result0, "parser.For") && isType(asType(result0, "parser.For").init, "parser.VariableAssignment") && len(asType(asType(result0, "parser.For").init, "parser.VariableAssignment").variables) == 1 && asType(asType(result0, "parser.For").init, "parser.VariableAssignment").values[0] == specIntLit(0) && isType(asType(result0, "parser.For").condition, "parser.Comparison") && asType(asType(result0, "parser.For").condition, "parser.Comparison").operator == COMPARE_OPERATOR_LESS && asType(asType(result0, "parser.For").condition, "parser.Comparison").left == specVarEval(asType(asType(result0, "parser.For").init, "parser.VariableAssignment").variables[0]) && isType(asType(asType(result0, "parser.For").condition, "parser.Comparison").right, "parser.Len") && asType(result0, "parser.For").increment == incrementDecrementStatement(asType(asType(result0, "parser.For").init, "parser.VariableAssignment").variables[0], true)
 //@   callsite addVariables requires[C07] index-and-value-variable-have-different-names: hasNamedVar ==> valueVarName != indexVarName
 //@   ensures[C01] plain-assignment-accepted-as-init: err != nil && calls(evaluateStatement) == 1 && res(evaluateStatement, 0, 1) == nil && calls(evaluateExpression) == 0 && calls(evaluateBlock) == 0 && res(evaluateStatement, 0, 0).StatementType() == STATEMENT_TYPE_VAR_ASSIGNMENT ==> hasPrefix(errmsg(err), "expected \";\"")
 //@   ensures[C06] condition-boolean: err == nil ==> isType(result0, "parser.For") && specTyped(asType(result0, "parser.For").condition) && asType(result0, "parser.For").condition.ValueType().IsBool()
@@ -469,5 +523,10 @@ func specInScope(stack []scope, n int, s scope) bool {
 func asExprFromCall(c Call) Expression { return c }
 
 func specIntLit(v int) Expression { return IntegerLiteral{value: v} }
+
+// specVarEval, specLen: the expressions "the value of v" and "len(e)".
+func specVarEval(v Variable) Expression { return VariableEvaluation{v} }
+
+func specLen(e Expression) Expression { return Len{e} }
 
 func specStrLit(v string) Expression { return StringLiteral{value: v} }
